@@ -73,6 +73,16 @@ func genCase(r *hx.Rand, big bool) *Case {
 	if !big && nb > 4 {
 		nb = 1 + r.Intn(4)
 	}
+	// "holes" mode: >= 3 files (columns), every benchmark missing from exactly one of them, so
+	// that rows lack a cell in the first, a middle or the last column
+	holesMode := r.Chance(1, 8)
+	if holesMode {
+		nfiles = 3 + r.Intn(2)
+		c.tag("holes")
+	}
+	// "collide" mode: multi-field projections whose value tuples have colliding concatenations
+	// (("1","10") vs ("11","0"), ("x","") vs ("","x"))
+	collideMode := !holesMode && r.Chance(1, 10)
 	// "ties" mode: differently spelled but numerically equal values in a non-last @num field
 	tiesMode := r.Chance(1, 8)
 	var names []string
@@ -99,6 +109,22 @@ func genCase(r *hx.Rand, big bool) *Case {
 		if !seen[n] {
 			seen[n] = true
 			names = append(names, n)
+		}
+	}
+	if collideMode {
+		c.tag("collide")
+		names = []string{"Enc/a=1/b=10", "Enc/a=11/b=0", "Enc/a=x", "Enc/b=x", "Enc/a=1/b=1", "Enc/a=11/b=", "Dec/a=1/b=10", "Dec/a=110"}
+		if r.Chance(1, 2) {
+			names = names[:4+r.Intn(5)]
+		}
+	}
+	dropIn := map[string]int{}
+	if holesMode {
+		for len(names) < 3 {
+			names = append(names, fmt.Sprintf("Extra%d", len(names)))
+		}
+		for i, n := range names {
+			dropIn[n] = (i + r.Intn(2)) % nfiles
 		}
 	}
 	nu := 1 + r.Intn(3)
@@ -189,7 +215,11 @@ func genCase(r *hx.Rand, big bool) *Case {
 			// benchmark lines
 			var lines []string
 			for _, n := range names {
-				if r.Chance(1, 5) {
+				if holesMode {
+					if dropIn[n] == fi {
+						continue
+					}
+				} else if r.Chance(1, 5) {
 					c.tag("missing")
 					continue // missing benchmark in this block
 				}
@@ -256,7 +286,12 @@ func genCase(r *hx.Rand, big bool) *Case {
 		c.tag("duplabel")
 	}
 	// flags
-	if tiesMode {
+	if collideMode {
+		c.Flags = append(c.Flags, hx.Pick(r, [][]string{{"-row", "/a,/b"}, {"-col", "/a,/b", "-row", ".name"}, {"-row", ".name,/a,/b"}, {"-row", "/a,/b,.name"},
+			{"-table", "/a,/b", "-row", ".name"}})...)
+	} else if holesMode && r.Chance(1, 2) {
+		// default projection: one column per file
+	} else if tiesMode {
 		c.tag("numties")
 		c.Flags = append(c.Flags, hx.Pick(r, [][]string{{"-row", "/bs@num,.name"}, {"-row", "/bs@num,/format"}, {"-col", "/bs@num,.file", "-row", ".name"},
 			{"-row", "/bs@num,.fullname"}, {"-table", "/bs@num,.config", "-row", ".name"}})...)
@@ -325,6 +360,13 @@ func corpusCases() []*Case {
 			rep("BenchmarkEncode/bs=4e3 1 13 ns/op", 3)+rep("BenchmarkEncode/bs=8k 1 14 ns/op", 3)+rep("BenchmarkEncode/bs=8000 1 15 ns/op", 3)+rep("BenchmarkDecode/bs=4k 1 16 ns/op", 3)),
 		mk([]string{"-col", "/bs@num,.file", "-row", ".name"}, rep("BenchmarkEncode/bs=4k 1 10 ns/op", 3)+rep("BenchmarkEncode/bs=4K 1 11 ns/op", 3)+rep("BenchmarkEncode/bs=4000 1 12 ns/op", 3),
 			rep("BenchmarkEncode/bs=4e3 1 13 ns/op", 3)+rep("BenchmarkEncode/bs=4K 1 11 ns/op", 3)),
+		// three columns with a hole in the first, the middle and the last column
+		mk(nil, rep("BenchmarkA 1 10 ns/op", 2)+rep("BenchmarkB 1 20 ns/op", 2)+rep("BenchmarkD 1 40 ns/op", 2),
+			rep("BenchmarkA 1 11 ns/op", 2)+rep("BenchmarkC 1 31 ns/op", 2)+rep("BenchmarkD 1 41 ns/op", 2),
+			rep("BenchmarkA 1 12 ns/op", 2)+rep("BenchmarkB 1 22 ns/op", 2)+rep("BenchmarkC 1 32 ns/op", 2)),
+		// value tuples whose concatenations collide must stay distinct keys
+		mk([]string{"-row", "/a,/b"}, rep("BenchmarkEnc/a=1/b=10 1 10 ns/op", 2)+rep("BenchmarkEnc/a=11/b=0 1 20 ns/op", 2)+rep("BenchmarkEnc/a=x 1 30 ns/op", 2)+rep("BenchmarkEnc/b=x 1 40 ns/op", 2)),
+		mk([]string{"-col", "/a,/b", "-row", ".name"}, rep("BenchmarkEnc/a=1/b=10 1 10 ns/op", 2)+rep("BenchmarkEnc/a=11/b=0 1 20 ns/op", 2)+rep("BenchmarkEnc/a=x 1 30 ns/op", 2)+rep("BenchmarkEnc/b=x 1 40 ns/op", 2)),
 		// exact assumption
 		mk([]string{"-col", "note"}, "Unit text-bytes assume=exact\nnote: before\n\nBenchmarkSize 1 100 text-bytes\nBenchmarkN 1 100 text-bytes\nBenchmarkN 1 101 text-bytes\n\nnote: after\n\nBenchmarkSize 1 105 text-bytes\nBenchmarkN 1 101 text-bytes\n"),
 	}
